@@ -22,7 +22,7 @@ PID = 'C24'
 
 META = {
     'technique': 'units-of-measure inference for superblock-grid quantities (divisor provenance, reaching definitions, store agreement) + lockset dataflow + sibling agreement of normalised guard/target expression trees (init increments vs run-time decrements) + post-dominance on the event-CFG',
-    'text': 'Decides the structure that makes the wavefront dependency counting sound under every worker interleaving: counter and row-cursor accesses under the row mutex of the same row, init-time increments and run-time decrements using equal guards and targets, hand-out immediately followed by the cursor increment inside the lock, feedback token always posted. Does not decide that the band/row arithmetic covers each superblock exactly once for every grid (exhaustive evaluation, a different technique). Also decided (UNITS): segment / superblock coordinates and the row strides they are linearised with are counted in the same block size (dimension analysis). Also decided: the segment grid handed to enc_dec_segments_init is clamped by the superblock dimensions of the tile group it partitions (in the callee, or at every call site against the very expression passed as the dimension).',
+    'text': 'Decides the structure that makes the wavefront dependency counting sound under every worker interleaving: counter and row-cursor accesses under the row mutex of the same row, init-time increments and run-time decrements using equal guards and targets, hand-out immediately followed by the cursor increment inside the lock, feedback token always posted. Does not decide that the band/row arithmetic covers each superblock exactly once for every grid (exhaustive evaluation, a different technique). Also decided (UNITS): segment / superblock coordinates and the row strides they are linearised with are counted in the same block size (dimension analysis). Also decided: a one-superblock-wide tile group is given a single segment row (the degenerate grid that never completes); the segment grid handed to enc_dec_segments_init is clamped by the superblock dimensions of the tile group it partitions (in the callee, or at every call site against the very expression passed as the dimension).',
     'note': 'MDC_INPUT / ENCDEC_INPUT cases are lock-free by protocol (the picture / row is owned by exactly one task at that point) and exempt with that reason; only valid segments are ever scheduled (init-side extra conjunct valid_sb_count_array[s])',
     'ref': 'DESIGN.md section 5 C24',
 }
@@ -297,6 +297,8 @@ def run(P, rep, tier):
             if rhs is None:
                 return False, 'stepped at %s' % f.loc(d)
             b = is_min(rhs, cname)
+            if b is None and strip(rhs)[0] == 'l' and strip(rhs)[1] == 1:
+                continue                       # the minimal grid: 1 <= every superblock dimension (a picture has at least one superblock)
             if b is None:
                 return False, '%s = %s at %s is not a min() clamp' % (cname, pstr(strip(rhs))[:50], f.loc(d))
             if pstr(b) == bound:
@@ -341,7 +343,40 @@ def run(P, rep, tier):
         rep.ob('C24.GRID', 'enc_dec_segments_init/%s<=%s' % (cname, dname), bad is None, init.loc(bad[0]) if bad else init.loc(),
                ('%d uses of %s all see min(%s, %s)' % (len(uses), cname, cname, dname)) if bad is None else
                ('segment count %s can exceed the superblock dimension %s it partitions: %s' % (cname, dname, bad[1])))
-    rep.floor('C24.GRID', 2)
+    # single column: with one superblock column and >= 2 segment rows the band arithmetic puts each row's only segment on the
+    # diagonal (segment r*rows + r), so `segment + band_count >= next_row.start` never holds, no dependency is counted and the lower
+    # rows are never started (replayed: 64x128 --lp 4 hung before the fix).  Necessary: the row count is collapsed when the width
+    # in superblocks is 1 - in the callee, before the first use of the row count.
+    rname, wname = init.params[2][0], init.params[3][0]
+    collapse = []
+    for ev in init.events(('st',)):
+        e = ev['e']
+        if e[0] == 'a' and e[1] == '=' and pstr(strip(e[2])) == rname:
+            conds = [strip(c) for k, c, l in init.ctl_chain(ev) if k == 'if' and c is not None]
+            on_w = [c for c in conds if any(x[0] == 'v' and x[1] == wname for x in subexprs(c))]
+            rhs = strip(e[3])
+            if on_w and rhs[0] == 'l' and rhs[1] == 1:
+                c = on_w[0]
+                one = c[0] == 'b' and ((c[1] == '==' and pstr(strip(c[3])) == '1') or (c[1] == '<' and pstr(strip(c[3])) == '2') or (c[1] == '<=' and pstr(strip(c[3])) == '1')) and pstr(strip(c[2])) == wname
+                if one:
+                    collapse.append(ev)
+            elif any(x[0] == 'v' and x[1] == wname for x in subexprs(rhs)):
+                collapse.append(ev)            # row count computed from the width (e.g. min(rows, f(width))): accepted as a collapse candidate
+    first_use = None
+    for ev in init.events(('st', 'decl', 'call')):
+        e = ev.get('e')
+        if e is None or ev in collapse:
+            continue
+        lhs_only = ev['k'] == 'st' and e[0] == 'a' and pstr(strip(e[2])) == rname
+        srcs = subexprs(e[3]) if lhs_only else subexprs(e)
+        if any(x[0] == 'v' and x[1] == rname for x in srcs) and not (lhs_only and is_min(e[3], rname) is not None):
+            first_use = ev
+            break
+    ok = bool(collapse) and first_use is not None and all(c.get('l', 0) < first_use.get('l', 0) for c in collapse[:1])
+    rep.ob('C24.GRID', 'enc_dec_segments_init/single-column', ok, init.loc(collapse[0]) if collapse else init.loc(),
+           ('the segment row count is collapsed to 1 when the tile group is one superblock wide, before its first use (line %s)' % first_use.get('l')) if ok else
+           'a tile group one superblock wide keeps several segment rows: the lower rows have no predecessor that starts them and the picture never completes (e.g. 64x128 with --lp 4)')
+    rep.floor('C24.GRID', 3)
 
 
 # ------------------------------------------------------------------------------------------------------------------- UNITS
